@@ -93,6 +93,25 @@ class PROP(Prop):
                 for fk in ("ConnectionReset", "Other", "BrokenPipe"):
                     cs.append(Case(cligen.cli_line(proto, slave, [cligen.call_op(req, F="e:" + fk, R=mb.rscript([reply]))]),
                                    {"k": "ffault", "frame": frame.hex(), "proto": proto}))
+            # --- read faults at every offset of a reply on a context whose EARLIER call already failed inside a (shorter or longer)
+            #     reply: whatever that call left behind in the framing layer, the truncated reply is a transport error, never data
+            slave = rng.randrange(1, 248)
+            pairs = [(("RHR", 7, 1), ("RHR", [0x1111]), ("RHR", 9, 4), ("RHR", [1, 2, 3, 4])),
+                     (("RHR", 7, 4), ("RHR", [1, 2, 3, 4]), ("RHR", 9, 1), ("RHR", [0x2222]))]
+            if proto == "tcp":
+                pairs.append((("CU", 0x41, b"\x01"), ("CU", 0x41, b"\xb1"), ("CU", 0x41, b"\x02"), ("CU", 0x41, bytes(range(0xa1, 0xa9)))))
+            for req1, rsp1, req2, rsp2 in pairs:
+                reply1 = cligen.frame(proto, 0, slave, mb.spec_rsp_pdu(rsp1))
+                reply2 = cligen.frame(proto, 1, slave, mb.spec_rsp_pdu(rsp2))
+                frame2 = cligen.frame(proto, 1, slave, mb.spec_req_pdu(req2))
+                for k1 in range(1, len(reply1)):
+                    for k2 in range(0, len(reply2)):
+                        for tail in ("eof", "e:ConnectionReset"):
+                            if tier == "quick" and tail == "eof" and (k1 + k2) % 2:
+                                continue
+                            ops = [cligen.call_op(req1, R=mb.rscript([reply1[:k1]], ["e:TimedOut"])),
+                                   cligen.call_op(req2, R=mb.rscript([reply2[:k2]], [tail]))]
+                            cs.append(Case(cligen.cli_line(proto, slave, ops), {"k": "rfault_hist", "off": k2, "off1": k1, "tail": tail, "frame": frame2.hex(), "proto": proto}))
         return cs
 
     def extra_checks(self, cases, tier, rng):
@@ -120,6 +139,14 @@ class PROP(Prop):
             got = w1 + w2
             if got != want[:len(got)] or (r2.startswith("OK:") and got != want):
                 return "after a write fault at offset %d the transport received %s over the client's lifetime; the frames are %s" % (m["off"], got.hex()[:80], want.hex()[:80])
+            return None
+        if m["k"] == "rfault_hist":
+            rs = cligen.split_results(c.impl)
+            if len(rs) != 2 or "PANIC" in (c.impl or ""):
+                return "panic / result count: %s" % (c.impl or "")[:80]
+            res, w = cligen.res_and_w(rs[1])
+            if not res.startswith("T:"):
+                return "after a call that failed at offset %d of its reply, a reply truncated at offset %d then %s: call returned %s, not a transport error" % (m["off1"], m["off"], m["tail"], res[:60])
             return None
         res, w = cligen.res_and_w(c.impl or "")
         frame = bytes.fromhex(m["frame"])
